@@ -46,10 +46,12 @@ TYPES = {
     'boolean': (['true', '0', '1'], ['2', 'yes']),
     'date': (['2020-01-01', '1999-12-31Z'], ['2020-13-01', 'today']),
     'string': (['anything', ''], []),
+    # a union whose members decode equal values to different Python classes (int / Decimal): one value space all the same
+    'num': (['1', '1.0', '2.50', '07'], ['x', '1e3']),
 }
 FIXED = {'int': ('5', ['05', '+5'], ['6']), 'decimal': ('1.0', ['1.00', '1'], ['1.01']),
          'boolean': ('true', ['1'], ['false']), 'date': ('2020-01-01', [], ['2020-01-02']),
-         'string': ('abc', [], ['abd', 'ABC'])}
+         'string': ('abc', [], ['abd', 'ABC']), 'num': ('1', ['1.0', '01', '1.00'], ['1.01', '2'])}
 
 
 def value_valid(typ, v):
@@ -60,7 +62,7 @@ def value_valid(typ, v):
         if typ == 'int':
             import re
             return bool(re.fullmatch(r'[+-]?\d+', v)) and -2**31 <= int(v) < 2**31
-        if typ == 'decimal':
+        if typ in ('decimal', 'num'):
             import re
             return bool(re.fullmatch(r'[+-]?(\d+(\.\d*)?|\.\d+)', v))
         if typ == 'boolean':
@@ -84,7 +86,7 @@ def value_of(typ, v):
     v = v.strip()
     if typ == 'int':
         return int(v)
-    if typ == 'decimal':
+    if typ in ('decimal', 'num'):
         return Decimal(v)
     if typ == 'boolean':
         return v in ('true', '1')
@@ -128,7 +130,7 @@ def gen_decl(rng):
 
 def attr_xml(a):
     if a['kind'] == 'local':
-        s = f'<xs:attribute name="{a["name"]}" type="xs:{a["type"]}" form="{a["form"]}"'
+        s = f'<xs:attribute name="{a["name"]}" type="{"t:Num" if a["type"] == "num" else "xs:" + a["type"]}" form="{a["form"]}"'
     elif a['kind'] == 'ref_ga':
         s = '<xs:attribute ref="t:ga"'
     elif a['kind'] == 'ref_gd':
@@ -174,6 +176,7 @@ def schema_text(decl):
             f'<xs:import namespace="{N1}" schemaLocation="imp.xsd"/>'
             f'<xs:attribute name="ga" type="xs:int"/><xs:attribute name="gx" type="xs:date"/>'
             f'<xs:attribute name="gd" type="xs:int" default="7"/>{groups}'
+            f'<xs:simpleType name="Num"><xs:union memberTypes="xs:integer xs:decimal"/></xs:simpleType>'
             f'<xs:element name="e"><xs:complexType>{content}</xs:complexType></xs:element></xs:schema>')
 
 
